@@ -203,7 +203,7 @@ impl Probe for GraphProbe {
 
 pub fn scenarios(thorough: bool) -> Vec<Scenario> {
     let mut v = vec![];
-    v.push(pair_scenario("pair-arrays", if thorough { &[1, 2, 3, 6, 9] } else { &[2, 3, 9] }, if thorough { 6 } else { 5 },
+    v.push(pair_scenario("pair-arrays", if thorough { &[1, 2, 3, 6, 9] } else { &[2, 3, 9] }, if thorough { 7 } else { 6 },
         &[Op::Resolve(0, 0, 0), Op::Resolve(1, 0, 1), Op::Commit(0, 2), Op::Meld(0, 1), Op::Travel(0, 0), Op::Travel(1, 1), Op::Reload(0)]));
     v.push(pair_conflict_scenario("pair-conflict", 2, 3, if thorough { &[1, 8, 4] } else { &[1, 8] }, if thorough { 5 } else { 4 },
         &[Op::Resolve(1, 0, 0), Op::Resolve(1, 0, 1), Op::Commit(1, 1), Op::Travel(1, 0), Op::Travel(1, 2), Op::Reload(1)]));
@@ -221,7 +221,7 @@ pub fn run(thorough: bool) {
         probes: vec![Arc::new(GraphProbe)],
         pools: vec![1],
         time_budget_s: if thorough { 2400 } else { 40 },
-        max_states: if thorough { 300_000 } else { 8_000 },
+        max_states: if thorough { 300_000 } else { 40_000 },
         stop_on_violation: true,
     });
     rep.set("rule", json!("at EVERY commit transition: exactly one new .delta (and at most one .pack) key, raw parents == get_anchors() immediately before, index > every parent's, afterwards get_anchors() == {new block} == returned set, raw info == argument, raw pack list == packs written; commits returning None write nothing. In EVERY state on every replica: applied blocks are ancestor-closed with strictly increasing indexes, get_anchors() == applied blocks not named as parent by an applied block, and get_delta(id) parents/packs/info == the independently parsed raw file. Histories include branching, merging, resolution-only and pack-less commits and commits after time travel. distinct_nontrivial = distinct committed block identifiers"));
